@@ -27,10 +27,11 @@ MLLS = [-2.0, -0.5, 0.0, 0.5, 1.0, 2.5, 3.0, 0.1, 1e-07, 12345.678]
 SYMS = ["=", "<", "<=", ">", ">="]
 CMP_COQ = {"=": "CEq", "<": "CLt", "<=": "CLe", ">": "CGt", ">=": "CGe"}
 
-# which variant of the model describes the code under test: "current" (the tree as it is), "repaired"
-# (proposed_fixes/C10-escape-string-constants.diff applied), "legacy" (before f11f464 / 127fbf4).
-DEFAULT_VARIANT = "current"   # Model.v `current`: fixes f11f464 and 127fbf4 applied; "repaired" adds the proposed quote escaping
-LABEL_FN = {"current": "case_labels", "repaired": "case_labels_repaired", "legacy": "case_labels_legacy"}
+# which variant of the model describes the code under test: "current" (the tree as it is: f11f464, 127fbf4 and
+# 60fb795 applied), "prequote" (60fb795 reverted), "legacy" (all three reverted) -- the latter two only for
+# regression experiments on scratch copies.
+DEFAULT_VARIANT = "current"
+LABEL_FN = {"current": "case_labels", "prequote": "case_labels_prequote", "legacy": "case_labels_legacy"}
 
 KNOWN_CLASSES = {
     2: "inverted-named-in-junction",
@@ -40,7 +41,6 @@ KNOWN_CLASSES = {
     32: "three-tables",
     256: "negated-attribute-null",
     512: "like-semantics",
-    1024: "string-constant-unescaped",
     2048: "path-segment-shadows-query-attribute",
 }
 
@@ -418,7 +418,7 @@ def gen_ops(rng, db, pred, make_pred):
 def gen_cases(ctx):
     rng = ctx.rng
     thorough = ctx.tier == "thorough"
-    n_db = 300 if thorough else 80
+    n_db = 300 if thorough else 60
     per_db = 16 if thorough else 12
     cases = []
     for d in range(n_db):
@@ -900,16 +900,21 @@ def run(ctx):
     timing['build'] = round(time.time() - t0, 1)
     cases = gen_cases(ctx)
     corpus_dir = os.path.join(common.VERIF, "corpus", "C10")
-    corpus = []
+    corpus, regression = [], {}
     if os.path.isdir(corpus_dir):
         for fn in sorted(os.listdir(corpus_dir)):
             if fn.endswith(".json"):
-                corpus.append(json.load(open(os.path.join(corpus_dir, fn)))["case"])
+                entry = json.load(open(os.path.join(corpus_dir, fn)))
+                if entry.get("regression"):      # pinned case of a repaired finding: must pass from now on
+                    regression[len(corpus)] = (entry["regression"], fn)
+                corpus.append(entry["case"])
     cases = corpus + cases
+    reg_state = {}
     if ctx.replay:
         rp = json.load(open(ctx.replay))
         if rp.get("case"):
             cases = [rp["case"]]
+            regression = {}
     # implementation, in parallel chunks (cases of one database stay together)
     chunks, cur = [], []
     for c in cases:
@@ -964,6 +969,8 @@ def run(ctx):
     n_guarded = 0
     for i, (c, r) in enumerate(zip(cases, results)):
         if "driver_exc" in r:
+            if i in regression:
+                reg_state.setdefault(regression[i][0], []).append(regression[i][1] + ": driver failed")
             continue
         preds = case_preds(c)
         ctx.count_case(c, nontrivial(c, r), c["kind"])
@@ -982,6 +989,13 @@ def run(ctx):
                 ctx.failure("oracle", msg, c, classes=[], impl=r)
         res = ops_oracle(c, r) if c["kind"] == "ops" else oracle(c, r)
         small = {k: v for k, v in r.items() if k != "dump"}
+        if i in regression:
+            sig, fn = regression[i]
+            bad_here = reg_state.setdefault(sig, [])
+            if res:
+                bad_here.append("%s: %s" % (fn, res[0][:160]))
+            elif labels is not None and not labels[i] & 1:
+                bad_here.append("%s: model and implementation disagree" % fn)
         if labels is None:
             # no labels, no classification: the single failed obligation above is the report
             if res:
@@ -1012,10 +1026,13 @@ def run(ctx):
         if i % 41 == 0:
             ctx.sample({"case": {k: v for k, v in c.items() if k != "db"}, "fits": len(c["db"]),
                         "selected_directly": r.get("direct", r.get("direct_ops")), "returned": r.get("ids", r.get("exc"))}, limit=8)
+    for sig in sorted(set(v[0] for v in regression.values())):
+        bad_here = reg_state.get(sig, [])
+        ctx.obligation("regression:" + sig, "regression", not bad_here,
+                       "; ".join(bad_here) if bad_here else "pinned cases of the repaired finding pass")
     ctx.notes["cases_outside_every_known_class"] = n_guarded
     ctx.notes["model"] = ("qobj/compile/mk_junction/holds/run_ops in coq/C10/Model.v; variant `current` = the code as it is "
-                          "(f11f464, 127fbf4 applied), `repaired` = with proposed_fixes/C10-escape-string-constants.diff, "
-                          "`legacy` = before the applied repairs")
+                          "(f11f464, 127fbf4, 60fb795 applied), `prequote` / `legacy` = repairs reverted (history, regression experiments)")
 
 
 MANIFEST = {
